@@ -7,6 +7,7 @@ mod c09;
 mod c11;
 mod c12;
 mod c13;
+mod c14;
 mod c15;
 mod c17;
 mod c19;
@@ -47,6 +48,7 @@ fn main() {
         let v: serde_json::Value = std::fs::read_to_string(path).ok().and_then(|t| serde_json::from_str(&t).ok()).unwrap_or(serde_json::Value::Null);
         match prop.as_str() {
             "C09" => c09::replay(&mut rep, &v),
+            "C14" => c14::replay(&mut rep, &v),
             "C15" => c15::replay(&mut rep, &v),
             _ => rep.notes.push(format!("HARNESS-ERROR: no replay handler for {prop}")),
         }
@@ -63,6 +65,7 @@ fn main() {
         "C11" => c11::run(&mut rep, &tier, seed),
         "C12" => c12::run(&mut rep, &tier, seed),
         "C13" => c13::run(&mut rep, &tier, seed),
+        "C14" => c14::run(&mut rep, &tier, seed),
         "C15" => c15::run(&mut rep, &tier, seed),
         "C17" => c17::run(&mut rep, &tier, seed),
         "C19" => c19::run(&mut rep, &tier, seed),
